@@ -220,6 +220,9 @@ class Ctx:
         self.unknown_branches = 0
         self.notes = []
         self.rules = {}         # aux variable id -> Poly r: the path condition contains  var^2 == r  (used by reduce_b)
+        self._pckeys = set()
+        self.unchecked = False      # a lazily added definedness assumption has not been confirmed satisfiable yet
+        self.pc_known_sat = True    # every atom is added by branch()/assume() after a feasibility check (Abort otherwise)
         self.defidx = {}        # index into pc -> group id, for atoms that only DEFINE auxiliary variables (see relevant_pc)
         self.defgroups = []     # group id -> set of auxiliary variable ids defined by the group
 
@@ -229,22 +232,43 @@ class Ctx:
             if not b.a:
                 raise Abort("contradictory assumption %s" % (note or ""))
             return
+        key = b.smt2() if b.k == "p" else None
+        if key is not None:
+            if key in self._pckeys:
+                return          # the identical atom is already on the path
+            self._pckeys.add(key)
         self.pc.append(b)
         if self.model is not None:
             if self._model_says(b) is not True:
                 self.model = None
 
-    def assume(self, b, what="assume"):
-        """harness precondition / definedness assumption"""
+    def assume(self, b, what="assume", lazy=False):
+        """harness precondition / definedness assumption.  lazy: the satisfiability check is deferred to the next branch / the end of the
+        path (used for 'denominator != 0', which is almost never contradictory; confirm() must be called before the path is counted)"""
         if isinstance(b, SymBool):
             b = b.b
         if b.k == "c" and b.a:
             return
-        self.defined.append((what, repr(b)[:200]))
+        n0 = len(self.pc)
         self.add(b, what)
+        if len(self.pc) == n0:
+            return
+        self.defined.append((what, repr(b)[:200]))
+        if lazy:
+            if self.model is None:
+                self.unchecked = True
+            return
         # keep the path satisfiable
         if self.model is None and self._check() == "unsat":
             raise Abort("assumption makes path infeasible: %s" % what)
+        self.unchecked = False
+
+    def confirm(self):
+        """end of path: the path condition (incl. lazily added assumptions) must be satisfiable, else the path is dropped"""
+        if self.unchecked and self.model is None:
+            if self._check() == "unsat":
+                raise Abort("path condition unsatisfiable (lazy definedness assumption)")
+        self.unchecked = False
 
     def add_def(self, auxvars, atoms):
         """add atoms that define the auxiliary variables auxvars (total definitions: for every value of the other variables
@@ -315,16 +339,38 @@ class Ctx:
         STATS["branch_queries"] += 1
         import time
         t = time.time()
-        zs = [b.z3() for b in self.pc]
+        pcs = self.pc
+        partial = False
+        if extra is not None and self.pc_known_sat:
+            # constraint independence: the path condition is satisfiable, so pc AND extra is satisfiable iff the atoms connected to
+            # extra through shared variables (transitively) are - the other components are satisfiable on their own
+            need = set(extra.vars())
+            av = [(b, b.vars()) for b in self.pc]
+            keep = [False] * len(av)
+            changed = True
+            while changed:
+                changed = False
+                for i, (b, vs) in enumerate(av):
+                    if not keep[i] and vs & need:
+                        keep[i] = True
+                        if not vs <= need:
+                            need |= vs
+                        changed = True
+            pcs = [b for (b, _), k in zip(av, keep) if k]
+            partial = len(pcs) != len(self.pc)
+        zs = [b.z3() for b in pcs]
         names = set()
-        for b in self.pc:
+        for b in pcs:
             names |= {A.var_name(v) for v in b.vars()}
         if extra is not None:
             zs.append(extra.z3())
             names |= {A.var_name(v) for v in extra.vars()}
         r, env = solve.hard_query(zs, sorted(names), self.WALL_S, self.RLIMIT)
         if r == "sat":
-            self.model = env
+            if partial and self.model is not None:
+                self.model = dict(self.model, **env)
+            else:
+                self.model = env
         STATS["branch_time"] += time.time() - t
         return r
 
@@ -637,6 +683,7 @@ def explore(fn, max_paths=2000):
         try:
             try:
                 res, exc = fn(), None
+                ctx.confirm()
             except Abort as e:
                 res, exc = None, e
             except Unsupported as e:
@@ -881,7 +928,7 @@ class SymK:
             if r is None:
                 raise ZeroDivisionError("division by exact zero")
             if atom is not None:
-                cur().assume(B.cmp("!=", atom), "denominator != 0")
+                cur().assume(B.cmp("!=", atom), "denominator != 0", lazy=True)
             return SymK.real_(r)
         if FIELD.deg == 2:
             n2 = self.c[0] * self.c[0] + self.c[1] * self.c[1]
